@@ -350,6 +350,7 @@ def oracles(sc, ctl, deadlock, prof):
         else:
             bad("C15", "deadlock: %s" % (deadlock,))
             bad("C14", "deadlock: %s" % (deadlock,))
+            bad("C16", "exec_jobs never returns (deadlock): %s" % (deadlock,))
         return fails
     for rec in sc.ops_done:
         res = rec["res"]
